@@ -18,7 +18,7 @@ FAULT_QUICK_VARIANTS = (
     'add_object:new@', 'add_streamed:multichunk@', 'seek_read:reloosen@', 'pack_all_loose:yes:clpp=1@',
     'pack_all_loose:no:clpp=1:multipack@', 'clean_storage@', 'add_objects_to_pack:z=1:nh1@',
     'add_objects_to_pack:z=0:nh1:multipack@', 'import:diff-hash:tmb-small@', 'delete:both-forms@', 'repack:keep:holes@', 'repack:yes@',
-    'add_streamed_object_to_pack:big@',
+    'add_streamed_object_to_pack:big@', 'pack_all_loose:no-fsync@',
 )
 
 
